@@ -320,7 +320,7 @@ impl Prop for C14 {
             picked.bytes = b;
         }
         if !debug_spliced {
-            picked = inputs::maybe_attach_dwarf(picked, rng, 1, 5);
+            picked = inputs::maybe_attach_dwarf_ex(picked, rng, 1, 5, true);
         }
         let (has, synth) = inputs::debug_status(&picked.iref.source, &picked.bytes);
         let has_debug = has && !synth;
@@ -332,6 +332,9 @@ impl Prop for C14 {
             // emission of arbitrary (malformed) DWARF is documented as experimental
             cfg.dwarf = false;
         }
+        // a quarter of the cases call preserve_code_transform AFTER generate_dwarf (which then really switches the
+        // code-transform capture off although DWARF generation stays on: the switch still only governs DWARF)
+        cfg.late_code_transform = rng.chance(1, 4);
         let hops = if rng.chance(1, 2) { 0 } else { rng.range(1, 5) };
         let chain: Vec<CfgBits> = (0..hops)
             .map(|_| {
